@@ -1,5 +1,9 @@
 import Driver.Common
-/-! Driver of the `multi` family (stub: no stream yet). -/
+import Driver.Multi
+/-! Driver of the `multi` family. -/
 
 def main (args : List String) : IO UInt32 :=
-  Drv.mainWith [] args
+  Drv.mainWith [
+    ("route", Drv.Route.stream),
+    ("crash", Drv.Crash.stream)
+  ] args
